@@ -129,4 +129,260 @@ theorem tolerated_arguments :
     K do_start_c0_1 = Faults_ALREADY_STARTED ∧ K do_start_c1_1 = Faults_ALREADY_STARTED ∧ K do_start_c2_1 = Faults_ALREADY_STARTED ∧
     K do_stop_c0_1 = Faults_NOT_RUNNING ∧ K do_stop_c1_1 = Faults_NOT_RUNNING ∧ K do_stop_c2_1 = Faults_NOT_RUNNING := by decide
 
+/-! ## one line per result, wording -/
+theorem out_spec (l : String) (s : S) (h : s.err = none) :
+    (out l s).outs = s.outs ++ [l] ∧ (out l s).err = none ∧ (out l s).p = s.p := by
+  simp [out, emit, guard, h]
+
+/-- the loop over a result list: when every status has a wording, exactly one line per entry is printed, in
+    order, each the wording of that entry's status, and no exception is raised -/
+theorem one_line_per_result (line : LineFn) (ign : Option Int) (rs : List Res) (s : S) (h : s.err = none)
+    (hw : ∀ r ∈ rs, (line r.group (some r.name) r.status r.desc).isSome) :
+    (printResults line ign rs s).outs = s.outs ++ rs.filterMap (fun r => line r.group (some r.name) r.status r.desc) ∧
+    (printResults line ign rs s).err = none := by
+  induction rs generalizing s with
+  | nil => simp [printResults, h]
+  | cons r rs ih =>
+    have hr := hw r (List.mem_cons_self)
+    obtain ⟨l, hl⟩ := Option.isSome_iff_exists.1 hr
+    have e1 := out_spec l s h
+    have e2 := setExitFromFault_spec r.status ign (out l s) e1.2.1
+    have := ih (setExitFromFault r.status ign (out l s)) e2.2.1 (fun x hx => hw x (List.mem_cons_of_mem _ hx))
+    simp only [printResults, printOne, hl, List.filterMap_cons]
+    rw [this.1, e2.2.2, e1.1]
+    exact ⟨by simp, this.2⟩
+
+example : (printResults startLine (some 60) [⟨"a", "a", 80, "OK"⟩, ⟨"g", "b", 30, "FAILED: x"⟩, ⟨"c", "c", 60, ""⟩]
+    (init "u" [])).outs = ["a: started", "FAILED: x", "c: ERROR (already started)"] := by decide
+
+/-- a status has a wording exactly when it is in the action's table -/
+theorem line_isSome (tbl : List (Int × Word)) (tmpl : String × String × String) (succ g : String) (n : Option String)
+    (st : Int) (d : String) : (resultLine tbl tmpl succ g n st d).isSome = (lookupWord tbl st).isSome := by
+  simp [resultLine]
+
+/-- FULL STATEMENT (false today, F25): every code the per-process RPC methods can raise has a wording in the
+    table of the action that prints it.  PARTIAL: all of them except SHUTDOWN_STATE. -/
+theorem wording_covers_server_codes_partial :
+    (∀ c ∈ serverCodes_start, c ≠ Faults_SHUTDOWN_STATE → (lookupWord startWording c).isSome) ∧
+    (∀ c ∈ serverCodes_stop, c ≠ Faults_SHUTDOWN_STATE → (lookupWord signalWording c).isSome) ∧
+    (∀ c ∈ serverCodes_signal, c ≠ Faults_SHUTDOWN_STATE → (lookupWord signalWording c).isSome) ∧
+    (∀ c ∈ serverCodes_clear, c ≠ Faults_SHUTDOWN_STATE → (lookupWord clearWording c).isSome) ∧
+    (lookupWord startWording Faults_SUCCESS).isSome ∧ (lookupWord signalWording Faults_SUCCESS).isSome ∧
+    (lookupWord clearWording Faults_SUCCESS).isSome := by decide
+
+/-- F25: SHUTDOWN_STATE can be raised by every per-process method and has no wording in any table; the
+    `start foo bar` of a daemon that is shutting down prints one `error:` line and never asks for bar -/
+theorem f25_shutdown_state_unhandled :
+    Faults_SHUTDOWN_STATE ∈ serverCodes_start ∧ lookupWord startWording Faults_SHUTDOWN_STATE = none ∧
+    Faults_SHUTDOWN_STATE ∈ serverCodes_stop ∧ lookupWord signalWording Faults_SHUTDOWN_STATE = none ∧
+    Faults_SHUTDOWN_STATE ∈ serverCodes_clear ∧ lookupWord clearWording Faults_SHUTDOWN_STATE = none ∧
+    (run "u" "start foo bar" [.ok (.str "3.0"), .fault 6 "SHUTDOWN_STATE"]).outs = ["error: ValueError"] ∧
+    (run "u" "start foo bar" [.ok (.str "3.0"), .fault 6 "SHUTDOWN_STATE"]).p.calls.length = 2 := by decide
+
+/-- wording corresponds to the status: only SUCCESS is worded as a success; every other status in a table is
+    worded `ERROR (...)` or is the server's own description (FAILED) -/
+def successWord : Word → Bool
+  | .ok _ => true
+  | .okparam => true
+  | _ => false
+def errorWord (code : Int) : Word → Bool
+  | .err _ => true
+  | .desc => code == Faults_FAILED
+  | _ => false
+
+theorem wording_matches_table :
+    (∀ e ∈ startWording ++ signalWording ++ clearWording,
+      (e.1 = Faults_SUCCESS → successWord e.2 = true) ∧ (e.1 ≠ Faults_SUCCESS → errorWord e.1 e.2 = true)) ∧
+    startWording_raisesOnUnknown = true ∧ signalWording_raisesOnUnknown = true ∧ clearWording_raisesOnUnknown = true := by
+  decide
+
+/-- distinct statuses of one table have distinct wordings -/
+theorem wording_injective :
+    (startWording.map (·.2)).Nodup ∧ (signalWording.map (·.2)).Nodup ∧ (clearWording.map (·.2)).Nodup ∧
+    (startWording.map (·.1)).Nodup ∧ (signalWording.map (·.1)).Nodup ∧ (clearWording.map (·.1)).Nodup := by decide
+
+/-! ## success ⇒ zero for the list forms -/
+/-- a result list whose entries are all SUCCESS or the tolerated code leaves the exit status as it was -/
+theorem all_ok_results_keep_exit (line : LineFn) (ign : Option Int) (rs : List Res) (s : S) (h : s.err = none)
+    (hw : ∀ r ∈ rs, (line r.group (some r.name) r.status r.desc).isSome)
+    (hok : ∀ r ∈ rs, r.status = Faults_SUCCESS ∨ some r.status = ign) :
+    (printResults line ign rs s).p.exit = s.p.exit := by
+  induction rs generalizing s with
+  | nil => simp [printResults]
+  | cons r rs ih =>
+    obtain ⟨l, hl⟩ := Option.isSome_iff_exists.1 (hw r List.mem_cons_self)
+    have e1 := out_spec l s h
+    have e2 := setExitFromFault_spec r.status ign (out l s) e1.2.1
+    have := ih (setExitFromFault r.status ign (out l s)) e2.2.1 (fun x hx => hw x (List.mem_cons_of_mem _ hx))
+      (fun x hx => hok x (List.mem_cons_of_mem _ hx))
+    simp only [printResults, printOne, hl]
+    rw [this, e2.1, if_pos (hok r List.mem_cons_self), e1.2.2]
+
+theorem filterMap_length_of_isSome {α β : Type} (f : α → Option β) (l : List α) (h : ∀ x ∈ l, (f x).isSome) :
+    (l.filterMap f).length = l.length := by
+  induction l with
+  | nil => rfl
+  | cons x l ih =>
+    obtain ⟨y, hy⟩ := Option.isSome_iff_exists.1 (h x List.mem_cons_self)
+    simp [List.filterMap_cons, hy, ih (fun z hz => h z (List.mem_cons_of_mem _ hz))]
+
+theorem startLine_ok (g : String) (n : Option String) (st : Int) (d : String)
+    (h : st = Faults_SUCCESS ∨ st = Faults_ALREADY_STARTED) : (startLine g n st d).isSome := by
+  unfold startLine; rw [line_isSome]; rcases h with h | h <;> subst h <;> decide
+
+/-- `start all`: the server up, every entry SUCCESS or ALREADY_STARTED ⇒ exit status 0, one line per entry -/
+theorem all_ok_exit_zero_start_all (url : String) (rs : List Res)
+    (hok : ∀ r ∈ rs, r.status = Faults_SUCCESS ∨ r.status = Faults_ALREADY_STARTED) :
+    (protect (Action.start.run "all") (init url [.ok (.str API_VERSION), .ok (.results rs)])).p.exit = 0 ∧
+    (protect (Action.start.run "all") (init url [.ok (.str API_VERSION), .ok (.results rs)])).outs.length = rs.length := by
+  have hs : pySplit "all" = ["all"] := by decide
+  let s1 : S := { p := { script := [], calls := [⟨"getVersion", [], .ok (.str API_VERSION)⟩,
+    ⟨"startAllProcesses", [], .ok (.results rs)⟩], url := url } }
+  have hrun : Action.start.run "all" (init url [.ok (.str API_VERSION), .ok (.results rs)]) =
+      printResults startLine (some 60) rs s1 := by
+    simp [Action.run, doStart, upcheck, rpc, guard, init, hs, startNames, ctl_gen, expectResults, s1]
+  have hw : ∀ r ∈ rs, (startLine r.group (some r.name) r.status r.desc).isSome :=
+    fun r hr => startLine_ok _ _ _ _ (hok r hr)
+  have h1 := one_line_per_result startLine (some 60) rs s1 rfl hw
+  have h2 := all_ok_results_keep_exit startLine (some 60) rs s1 rfl hw
+    (fun r hr => by rcases hok r hr with h | h <;> simp [h, ctl_gen])
+  have hp : protect (Action.start.run "all") (init url [.ok (.str API_VERSION), .ok (.results rs)]) =
+      printResults startLine (some 60) rs s1 := by
+    simp only [protect, hrun, h1.2, net]
+  rw [hp, h2, h1.1]
+  refine ⟨rfl, ?_⟩
+  simp only [s1, List.nil_append]
+  exact filterMap_length_of_isSome _ _ hw
+
+/-- the four tolerated answers, end to end: exit status 0 -/
+theorem tolerated_answers_exit_zero :
+    (run "u" "start foo" [.ok (.str "3.0"), .fault 60 "ALREADY_STARTED: foo"]).p.exit = 0 ∧
+    (run "u" "stop foo" [.ok (.str "3.0"), .fault 70 "NOT_RUNNING: foo"]).p.exit = 0 ∧
+    (run "u" "add foo" [.fault 90 "ALREADY_ADDED: foo"]).p.exit = 0 ∧
+    (run "u" "shutdown" [.fault 6 "SHUTDOWN_STATE"]).p.exit = 0 ∧
+    -- and the same codes where they are not tolerated
+    (run "u" "start foo" [.ok (.str "3.0"), .fault 70 "NOT_RUNNING: foo"]).p.exit = 7 ∧
+    (run "u" "reload" [.fault 6 "SHUTDOWN_STATE"]).p.exit = 1 := by decide
+
+/-! ## status exits 3 when a shown process is in a stopped state -/
+theorem setExit_spec (n : Int) (s : S) (h : s.err = none) :
+    (setExit n s).p.exit = n ∧ (setExit n s).err = none := by
+  simp [setExit, setP, guard, h]
+
+/-- the last loop of do_status over the shown processes -/
+theorem status_exit_3 (infos : List Info) (s : S) (h : s.err = none) :
+    (markStopped infos s).p.exit = (if infos.any (fun i => STOPPED_STATES.contains i.state) then 3 else s.p.exit) ∧
+    (markStopped infos s).err = none := by
+  unfold markStopped
+  induction infos generalizing s with
+  | nil => simp [h]
+  | cons i rest ih =>
+    simp only [List.foldl_cons, List.any_cons]
+    by_cases hi : STOPPED_STATES.contains i.state = true
+    · have e := setExit_spec (K do_status_a14) s h
+      have hg : onState do_status_g6 i.state = true := by simpa [ctl_gen] using hi
+      rw [if_pos hg]
+      have := ih (setExit (K do_status_a14) s) e.2
+      rw [this.1, e.1]
+      refine ⟨?_, this.2⟩
+      simp [hi, ctl_gen]
+    · have hg : ¬ onState do_status_g6 i.state = true := by simpa [ctl_gen] using hi
+      rw [if_neg hg]
+      have := ih s h
+      rw [this.1]
+      exact ⟨by simp [hi], this.2⟩
+
+/-- end to end for `status` without names -/
+example : (run "u" "status" [.ok (.str "3.0"), .ok (.infos [⟨"a", "a", 20, "RUNNING", "", 5⟩, ⟨"b", "b", 0, "STOPPED", "", 0⟩])]).p.exit = 3 := by
+  decide
+example : (run "u" "status a" [.ok (.str "3.0"), .ok (.infos [⟨"a", "a", 20, "RUNNING", "", 5⟩, ⟨"b", "b", 0, "STOPPED", "", 0⟩])]).p.exit = 0 := by
+  decide
+example : (run "u" "status nosuch" [.ok (.str "3.0"), .ok (.infos [⟨"a", "a", 20, "RUNNING", "", 5⟩])]).p.exit = 4 := by
+  decide
+
+/-- the states that make `status` exit 3 are exactly the documented stopped states -/
+theorem stopped_states_table :
+    STOPPED_STATES = (processStateCodes.filter fun kv => kv.1 ∈ ["STOPPED", "EXITED", "FATAL", "UNKNOWN"]).map (·.2) := by
+  decide
+
+/-! ## a fault is never silent, never a traceback -/
+/-- the outer exception net of onecmd: every Python exception raised by an action ends as one `error:` line and
+    exit status GENERIC; nothing escapes -/
+theorem fault_never_silent (s : S) (e : Exc) (h : s.err = some e) (hh : isHarnessErr (some e) = false) :
+    (net s).err = none ∧ (net s).outs = s.outs ++ ["error: " ++ excName e] ∧ (net s).p.exit = 1 := by
+  simp [net, h, hh, out, emit, setExit, setP, guard, ctl_gen]
+
+/-- no exception leaves `onecmd` (the only pending "errors" are the harness' own: a script that does not fit
+    the calls, an action outside the model) -/
+theorem no_traceback (f : S → S) (s : S) :
+    (protect f s).err = none ∨ isHarnessErr (protect f s).err = true := by
+  have hnet : ∀ x : S, (net x).err = none ∨ isHarnessErr (net x).err = true := by
+    intro x
+    unfold net
+    split
+    · left; assumption
+    · rename_i e he
+      split
+      · right; rw [he]; assumption
+      · left; simp [out, emit, setExit, setP, guard]
+  unfold protect
+  dsimp only
+  split
+  · split <;> exact hnet _
+  · exact hnet _
+
+/-! ## which processes the arguments select -/
+theorem splitColon_none (l : List Char) (h : ':' ∉ l) : splitColon l = none := by
+  induction l with
+  | nil => rfl
+  | cons c l ih =>
+    have h1 : c ≠ ':' := fun e => h (by simp [e])
+    have h2 : ':' ∉ l := fun e => h (List.mem_cons_of_mem _ e)
+    simp [splitColon, h1, ih h2]
+
+theorem splitColon_first (g p : List Char) (h : ':' ∉ g) : splitColon (g ++ ':' :: p) = some (g, p) := by
+  induction g with
+  | nil => simp [splitColon]
+  | cons c g ih =>
+    have h1 : c ≠ ':' := fun e => h (by simp [e])
+    have h2 : ':' ∉ g := fun e => h (List.mem_cons_of_mem _ e)
+    simp [splitColon, h1, ih h2]
+
+/-- a plain name selects the process of that name in the group of that name -/
+theorem namespec_plain (n : String) (h : ':' ∉ n.toList) : splitNamespec n = (n, some n) := by
+  simp [splitNamespec, splitColon_none _ h]
+
+/-- `group:*` and `group:` select the whole group -/
+theorem namespec_group (g : String) (h : ':' ∉ g.toList) :
+    splitNamespec (g ++ ":*") = (g, none) ∧ splitNamespec (g ++ ":") = (g, none) := by
+  constructor
+  · have : (g ++ ":*").toList = g.toList ++ ':' :: ['*'] := by simp [String.toList_append]
+    simp [splitNamespec, this, splitColon_first _ _ h, String.ofList_toList]
+  · have : (g ++ ":").toList = g.toList ++ ':' :: [] := by simp [String.toList_append]
+    simp [splitNamespec, this, splitColon_first _ _ h, String.ofList_toList]
+
+/-- `group:name` selects one process of the group (the name may itself contain colons) -/
+theorem namespec_group_name (g p : String) (h : ':' ∉ g.toList) (hp : p ≠ "") (hs : p ≠ "*") :
+    splitNamespec (g ++ ":" ++ p) = (g, some p) := by
+  have : (g ++ ":" ++ p).toList = g.toList ++ ':' :: p.toList := by simp [String.toList_append]
+  have h1 : p.toList ≠ [] := fun e => hp (by rw [← String.ofList_toList (s := p), e]; rfl)
+  have h2 : p.toList ≠ ['*'] := fun e => hs (by rw [← String.ofList_toList (s := p), e]; rfl)
+  simp [splitNamespec, this, splitColon_first _ _ h, String.ofList_toList, h1, h2]
+
+/-- `all` anywhere in the list selects everything with one request; otherwise one request per name:
+    the group request for `group:*`, the process request for a name -/
+theorem namespec_selection_start (names : List String) :
+    startNames names =
+      if names.contains "all" then
+        rpc "startAllProcesses" [] (expectResults (printResults startLine (some Faults_ALREADY_STARTED))) raiseFault raiseSock
+      else fun s => names.foldl (fun s n => startOne n s) s := by
+  unfold startNames; simp [ctl_gen]
+
+example : (run "u" "start g:* foo" [.ok (.str "3.0"), .ok (.results []), .ok .unit]).p.calls.map renderCall =
+    ["getVersion()", "startProcessGroup(g)", "startProcess(foo)"] := by decide
+example : (run "u" "stop foo all" [.ok (.str "3.0"), .ok (.results [])]).p.calls.map renderCall =
+    ["getVersion()", "stopAllProcesses()"] := by decide
+example : (run "u" "signal HUP g:a h:" [.ok (.str "3.0"), .ok .unit, .ok (.results [])]).p.calls.map renderCall =
+    ["getVersion()", "signalProcess(g:a,HUP)", "signalProcessGroup(h,HUP)"] := by decide
+
 end Sv.Props.C20
